@@ -175,7 +175,7 @@ def run_tlc(module, cfg, **kw):
 
 def _run_tlc_once(module, cfg, *, workers=NCPU, simulate=None, depth=None, env=None, timeout=1100, xmx="8g",
                   deque=False, coverage=False, deadlock=None, seed=None, collect=("CASE", "EDGE"), sink=None,
-                  extra=()):
+                  extra=(), on_line=None):
     """Runs TLC on SPEC/<module>.tla with SPEC/<cfg>. Returns a dict:
        rc, ok (no violation, no error), violated (name or None), generated, distinct, lines{tag: [json..]},
        coverage {action: taken}, out (tail of raw output).
@@ -210,6 +210,7 @@ def _run_tlc_once(module, cfg, *, workers=NCPU, simulate=None, depth=None, env=N
         e.update(env)
     t0 = time.time()
     lines = {t: [] for t in collect}
+    counts = {}
     tail = []
     generated = distinct = 0
     violated = None
@@ -230,6 +231,9 @@ def _run_tlc_once(module, cfg, *, workers=NCPU, simulate=None, depth=None, env=N
                         body = ln.rstrip("\n")[len(t) + 2:-1].replace('\\"', '"').replace("\\\\", "\\")
                         if sink and t in sink:
                             sink[t].write(body + "\n")
+                        elif on_line and t in on_line:
+                            on_line[t](body)        # consumed at once (a large export is never held as text)
+                            counts[t] = counts.get(t, 0) + 1
                         else:
                             lines[t].append(body)
                         hit = True
